@@ -2698,7 +2698,10 @@ class SFTPClientHandler(SFTPHandler):
         if resptype not in (FXP_STATUS, return_type):
             raise SFTPBadMessage(f'Unexpected response type: {resptype}')
 
-        result = self._packet_handlers[resptype](self, resp)
+        try:
+            result = self._packet_handlers[resptype](self, resp)
+        except PacketDecodeError as exc:
+            raise SFTPBadMessage(str(exc)) from None
 
         if result is not None or return_type is None:
             return result
@@ -2878,8 +2881,11 @@ class SFTPClientHandler(SFTPHandler):
             packet = cast(SSHPacket, await self._make_request(
                 b'limits@openssh.com'))
 
-            limits = SFTPLimits.decode(packet)
-            packet.check_end()
+            try:
+                limits = SFTPLimits.decode(packet)
+                packet.check_end()
+            except PacketDecodeError as exc:
+                raise SFTPBadMessage(str(exc)) from None
 
             limits.log(self.logger, 'Received')
 
@@ -3043,8 +3049,11 @@ class SFTPClientHandler(SFTPHandler):
             packet = cast(SSHPacket, await self._make_request(
                 b'statvfs@openssh.com', String(path)))
 
-            vfsattrs = SFTPVFSAttrs.decode(packet, self._version)
-            packet.check_end()
+            try:
+                vfsattrs = SFTPVFSAttrs.decode(packet, self._version)
+                packet.check_end()
+            except PacketDecodeError as exc:
+                raise SFTPBadMessage(str(exc)) from None
 
             self.logger.debug1('Received %s', vfsattrs)
 
@@ -3061,8 +3070,11 @@ class SFTPClientHandler(SFTPHandler):
             packet = cast(SSHPacket, await self._make_request(
                 b'fstatvfs@openssh.com', String(handle)))
 
-            vfsattrs = SFTPVFSAttrs.decode(packet, self._version)
-            packet.check_end()
+            try:
+                vfsattrs = SFTPVFSAttrs.decode(packet, self._version)
+                packet.check_end()
+            except PacketDecodeError as exc:
+                raise SFTPBadMessage(str(exc)) from None
 
             self.logger.debug1('Received %s', vfsattrs)
 
@@ -3288,8 +3300,11 @@ class SFTPClientHandler(SFTPHandler):
                 b'ranges@asyncssh.com', String(handle),
                 UInt64(offset), UInt64(length)))
 
-            result = SFTPRanges.decode(packet)
-            packet.check_end()
+            try:
+                result = SFTPRanges.decode(packet)
+                packet.check_end()
+            except PacketDecodeError as exc:
+                raise SFTPBadMessage(str(exc)) from None
 
             result.log(self.logger, 'Received')
 
